@@ -16,12 +16,14 @@ import (
 	"crypto/sha256"
 	_ "crypto/sha512"
 	"encoding/hex"
+	"encoding/json"
 	"errors"
 	"fmt"
 	"io"
 	"math/rand/v2"
 	"net/http"
 	"net/http/httptest"
+	"os"
 	"sort"
 	"strings"
 	"sync"
@@ -44,6 +46,19 @@ func sha256Of(b []byte) string {
 func main() {
 	if worker.IsWorker() {
 		worker.Serve(runCase)
+		return
+	}
+	if one := os.Getenv("C15_CASE"); one != "" {
+		// debugging aid: C15_CASE=phase:index runs one case in-process and prints its result
+		var phase string
+		var idx int
+		if p := strings.SplitN(one, ":", 2); len(p) == 2 {
+			phase = p[0]
+			fmt.Sscan(p[1], &idx)
+		}
+		res := runCase(phase, idx)
+		b, _ := json.MarshalIndent(res, "", " ")
+		fmt.Println(string(b))
 		return
 	}
 	r := evidence.New("C15", "exploration")
